@@ -59,7 +59,8 @@ type CommitObs struct {
 // writes the `__oxia/commit-offset` key.
 type ObsFactory struct {
 	kv.Factory
-	KVs []*obsKV
+	KVs    []*obsKV
+	closed bool
 }
 
 func NewObsFactory(dir string) *ObsFactory {
